@@ -98,6 +98,12 @@ class CCtx:
         self.args[name] = T(z, hint)
         return z
 
+    def declare(self, name: str, hint: Optional[str] = None) -> None:
+        """Like sym() but without freezing the actual argument in call mode (for mutated receivers)."""
+        if name in self.args or self.mode != "verify":
+            return
+        self.args[name] = T(z3.Const("p_" + name, Obj), hint)
+
     def val(self, name: str) -> Any:
         return self.args[name]
 
@@ -177,6 +183,7 @@ class LemmaCtx:
 class Registry:
     def __init__(self) -> None:
         self.lemmas: Dict[str, Lemma] = {}
+        self.abstract: Dict[str, Contract] = {}
         self.contracts: Dict[Tuple[str, str], Contract] = {}
         self.accept: Dict[str, Contract] = {}
         self.transparent: set = set()
@@ -201,6 +208,12 @@ class Registry:
     def accept_contract(self, visitor_cls: str, props: Sequence[str] = ()):
         def deco(fn):
             self.accept[visitor_cls] = Contract("<accept>", visitor_cls, fn, tuple(props))
+            return fn
+        return deco
+
+    def abstract_contract(self, name: str, props: Sequence[str] = ()):
+        def deco(fn):
+            self.abstract[name] = Contract("<abstract>", name, fn, tuple(props))
             return fn
         return deco
 
@@ -264,6 +277,13 @@ class Registry:
         env["kwargs"] = kwrest if kwrest is not None else Kw(ex.kw_empty)
         ex.opaque_calls.add(f"Accept[{con.qualname}]")
         return self._apply(ex, con, f"Accept[{con.qualname}]", None, env, st)
+
+    def apply_abstract(self, ex, name: str, env: Dict[str, Any], st: State):
+        con = self.abstract.get(name)
+        if con is None:
+            raise Unsupported(f"no abstract contract {name}")
+        ex.opaque_calls.add(f"Abstract[{name}]")
+        return self._apply(ex, con, f"Abstract[{name}]", None, env, st)
 
     def apply_ctor(self, ex, con, cname, init, ref, pos, kws, kwrest, st):
         raise Unsupported("constructor contracts")
@@ -344,6 +364,7 @@ class Registry:
 REG = Registry()
 contract = REG.contract
 lemma = REG.lemma
+abstract_contract = REG.abstract_contract
 accept_contract = REG.accept_contract
 invariant = REG.invariant
 transparent = REG.mark_transparent
@@ -434,7 +455,8 @@ def verify_function(repo: Repo, ct: M.ClassTable, reg: Registry, con: Contract,
         outs = ex.ex_block(info.node.body, st)
         fr.paths = len(outs)
         q = con.qualname
-        for pi, (s, o) in enumerate(outs):
+        for pi0, (s, o) in enumerate(outs):
+            pi = f"{pi0}@{s.notes[-1]}" if s.notes else str(pi0)
             if o is NORMAL:
                 o = Ret(ex.const(None))
             if isinstance(o, Ret):
